@@ -19,6 +19,16 @@ class ToolError(Exception):
     pass
 
 
+class SubjectCrash(Exception):
+    """the harness process itself was killed while running code under test (abort from an unsafe-precondition check,
+    double free, segfault, uncaught panic): that is an outcome of the subject, i.e. data, not a tool failure"""
+    def __init__(self, args, returncode, stderr):
+        super().__init__("subject crashed: kvh %s -> %s" % (" ".join(map(str, args)), returncode))
+        self.kvh_args = [str(a) for a in args]
+        self.returncode = returncode
+        self.stderr = stderr
+
+
 def log(*a):
     print(*a, file=sys.stderr, flush=True)
 
@@ -114,7 +124,11 @@ def kvh(args, out=None, env=None, timeout=1800, input=None):
     if p.timeout:
         raise ToolError("harness timeout: %s" % args)
     if p.returncode != 0:
-        raise ToolError("harness failed (%s) %s:\n%s" % (p.returncode, args, p.stderr.decode(errors="replace")[-4000:]))
+        err = p.stderr.decode(errors="replace")
+        # usage errors / missing arguments are harness bugs; a signal, an abort or a panic that escaped is the subject's
+        if p.returncode < 0 or p.returncode in (101, 134, 139) or "panic under test" in err or "unsafe precondition" in err:
+            raise SubjectCrash(args, p.returncode, err[-3000:])
+        raise ToolError("harness failed (%s) %s:\n%s" % (p.returncode, args, err[-4000:]))
     return p
 
 
